@@ -309,7 +309,7 @@ class DPTStructIntMixin:
             ):
                 raise ValueError
             return DPTArray(struct.pack(cls._struct_format, knx_value))
-        except (ValueError, OverflowError, struct.error) as err:
+        except (ValueError, TypeError, OverflowError, struct.error) as err:
             raise ConversionError(
                 f"Could not serialize {cls.dpt_name()}",  # type: ignore[attr-defined]
                 value=value,
